@@ -1,2 +1,7 @@
 pub mod common;
 pub mod c01;
+pub mod c06;
+pub mod c07;
+pub mod c08;
+pub mod c10;
+pub mod c12;
